@@ -351,12 +351,7 @@ def stackStep (st : Unit) (tok : List String) (impl : String) : Unit × Verdict 
         | some x => if x.err == PErr.none then "max" else stkPErr x.err
         | none => "max"
       let toks := r == 0 && nLim ws != 0
-      -- relational: reader.go as it is charges nothing for the bytes of the failing read (known finding); a limiter that
-      -- charges them as well — the repair — is what the property asks for and is accepted as the model's answer too
-      let lastFull := ((rs.getLast?.map (·.got.length)).getD 0) * nLim ws
-      let implLast := ((stkRes impl "req").bind (stkNatList "/")).bind List.getLast?
       let sums := rs.map (·.reqs.sum)
-      let sums := if implLast == some lastFull then sums.dropLast ++ [lastFull] else sums
       let m := s!"rd={stkJoinNat "/" (rs.map (·.got.length))};req={if toks then stkJoinNat "/" sums else "-"};end={endS};cat=1;cnt={if ws.contains .stats then toString (statsCount rs) else "-"}"
       let prop := match (stkRes impl "rd").bind (stkNatList "/"), stkRes impl "req", stkRes impl "end", stkRes impl "cnt" with
         | some ns, some rq, some e, some cnt =>
@@ -364,8 +359,8 @@ def stackStep (st : Unit) (tok : List String) (impl : String) : Unit × Verdict 
           let cnt' : Option (Option Nat) := if cnt = "-" then some none else cnt.toNat?.map some
           match reqs, cnt' with
           | some reqs, some cnt' =>
-            -- transparency (proved for the model) and: every byte that went through was charged (C01.reader_charged_partial;
-            -- REFUTED for bytes that come with an error, C01.reader_charged_witness — known finding)
+            -- transparency and: every byte that went through was charged, those that came with an error included
+            -- (C01.reader_any_source, reader_charged)
             C01.rsrcHoldsOn (effK ws plen) src ns reqs (stkPErrOf e) (stkRes impl "cat" == some "1") cnt' &&
               C01.rsrcChargedOn ns reqs
           | _, _ => false
